@@ -73,6 +73,7 @@ var (
 	budget   = flag.Duration("budget", 0, "wall-clock budget for exploration (0: per tier default)")
 	maxPaths = flag.Int64("maxpaths", 0, "override path budget")
 	noNative = flag.Bool("nonative", false, "skip native replays (development)")
+	confF    = flag.String("conf", "", "run conformance functions (comma separated, or 'all') natively and in the engine and compare")
 )
 
 func main() {
@@ -83,6 +84,9 @@ func main() {
 	os.Setenv("GOTOOLCHAIN", "local")
 	if *replayF != "" {
 		os.Exit(doReplay(*replayF))
+	}
+	if *confF != "" {
+		os.Exit(doConf(*confF))
 	}
 	if *prop == "" && *harness == "" {
 		fmt.Fprintln(os.Stderr, "need -prop or -harness")
@@ -633,5 +637,72 @@ func doReplay(path string) int {
 		return 1
 	}
 	fmt.Println("not reproduced")
+	return 0
+}
+
+// doConf runs conformance functions natively and inside the engine (concrete mode) and compares the digests.
+func doConf(list string) int {
+	verif := *verifDir
+	native := buildNative(verif)
+	defer native.cleanup()
+	p, _, err := interp.Load(filepath.Join(verif, "harness"), "./h", nil)
+	if err != nil {
+		fmt.Fprintln(os.Stderr, err)
+		return 2
+	}
+	var names []string
+	if list == "all" {
+		for _, n := range p.HarnessNames("Conf_") {
+			names = append(names, strings.TrimPrefix(n, "Conf_"))
+		}
+	} else {
+		names = strings.Split(list, ",")
+	}
+	<-native.ready
+	if native.err != nil {
+		fmt.Fprintln(os.Stderr, native.err)
+		return 2
+	}
+	bad := 0
+	for _, n := range names {
+		out, err := exec.Command(native.bin, "conf", n).CombinedOutput()
+		if err != nil {
+			fmt.Printf("CONF %s: native run failed: %v\n%s\n", n, err, out)
+			bad++
+			continue
+		}
+		nat := strings.TrimSuffix(strings.TrimPrefix(string(out), "=== "+n+"\n"), "\n")
+		eng, err := p.RunConcrete("Conf_"+n, *trace)
+		if err != nil {
+			fmt.Printf("CONF %s: %v\n", n, err)
+			bad++
+			continue
+		}
+		if nat == eng {
+			fmt.Printf("CONF %s: ok (%d lines)\n", n, strings.Count(nat, "\n")+1)
+			continue
+		}
+		bad++
+		nl, el := strings.Split(nat, "\n"), strings.Split(eng, "\n")
+		shown := 0
+		for i := 0; i < len(nl) || i < len(el); i++ {
+			var a, b string
+			if i < len(nl) {
+				a = nl[i]
+			}
+			if i < len(el) {
+				b = el[i]
+			}
+			if a != b && shown < 8 {
+				fmt.Printf("CONF %s: line %d differs\n  native: %s\n  engine: %s\n", n, i+1, a, b)
+				shown++
+			}
+		}
+	}
+	if bad > 0 {
+		fmt.Printf("CONF FAILED: %d of %d functions differ\n", bad, len(names))
+		return 2
+	}
+	fmt.Printf("CONF OK: %d functions identical natively and in the engine\n", len(names))
 	return 0
 }
